@@ -6,14 +6,19 @@ import importlib, json, os, sys
 V = os.path.dirname(os.path.dirname(os.path.abspath(__file__)))
 sys.path.insert(0, V)
 from pyvc.spec import REG
-from pyvc.source import locate, skeleton
+from pyvc.source import locate, skeleton, text_hash
 for m in sorted(f[:-3] for f in os.listdir(os.path.join(V, "specs")) if f.endswith(".py") and not f.startswith("_")):
     importlib.import_module("specs." + m)
 out = {}
+out_text = {}
 for k, sp in REG.fns.items():
     if sp.trusted:
         continue
     _, fn, _ = locate(sp.file, sp.qualname)
     out[k] = skeleton(fn)
+    out_text[k] = text_hash(fn)
 json.dump(out, open(os.path.join(V, "specs", "fingerprints.json"), "w"), indent=0, sort_keys=True)
+# exact text of the functions the contracts were attached to (vacuity on a function whose text CHANGED is a contract / code
+# mismatch to be re-attached, i.e. undecided; on the unchanged text it is a defect of the checker)
+json.dump(out_text, open(os.path.join(V, "specs", "fingerprints_text.json"), "w"), indent=0, sort_keys=True)
 print(len(out), "fingerprints")
